@@ -171,8 +171,31 @@ func (in *Interp) strSliceElems(v Value) []StrV {
 
 // parseDecimal models strconv.Atoi / ParseInt(s, 10, 64) acceptance and value
 // for strings of at most 18 digits.
+// digitsTermOf recognises a string that is, unchanged, the decimal rendering the
+// engine produced for an integer term (strconv.Itoa / FormatInt / %d).
+func (in *Interp) digitsTermOf(s StrV) (*Term, bool) {
+	for _, t := range in.digitList {
+		c := in.digitCache[t]
+		if c.Mem == s.Mem && c.Off == s.Off && c.Len == s.Len {
+			return t, true
+		}
+	}
+	return nil, false
+}
+
 func (in *Interp) parseDecimal(s StrV) (val *Term, ok *Term) {
 	tb := in.tb
+	if t, is := in.digitsTermOf(s); is {
+		// parsing the exact rendering of t gives t back (|t| < 10^18 was assumed
+		// when it was rendered)
+		if t.S.W < 64 {
+			if in.digitSigned[t] {
+				return tb.SExt(64, t), tb.True
+			}
+			return tb.ZExt(64, t), tb.True
+		}
+		return t, tb.True
+	}
 	n := in.needBound(s, "strconv.Atoi")
 	if n > 19 {
 		panic("strconv.Atoi: bound above 19 bytes")
@@ -251,6 +274,9 @@ func registerStrNatives(in *Interp) {
 		return r
 	}
 	n["strings.TrimSpace"] = func(in *Interp, fn *ssa.Function, args []Value) Value {
+		if _, ok := in.digitsTermOf(args[0].(StrV)); ok {
+			return args[0] // a decimal rendering has no white space to trim
+		}
 		in.noteAssumption("strings.TrimSpace modelled for ASCII white space (Unicode spaces U+0085/U+00A0 at the ends are outside)")
 		return in.trimWith(args[0].(StrV), func(b *Term) *Term { return isSpaceTerm(tb, b) }, true, true)
 	}
